@@ -49,7 +49,17 @@ equation
   z = a + d + g;
 end AliasDelay;""",
 }
+MODELS["MatAttr"] = """model MatAttr
+  parameter Real pm[2,3] = {{1, 2, 3}, {4, 5, 6}};
+  parameter Real s = 2.0;
+  Real w[2,3](min = pm, max = 10 * pm, nominal = s * pm);
+  Real z;
+equation
+  w = fill(2 * time, 2, 3);
+  z = w[2,1] + s;
+end MatAttr;"""
 OPTION_SETS = [{}, {"detect_aliases": True}, {"replace_constant_values": True, "expand_vectors": False}]
+EXTRA_CASES = [("MatAttr", {"resolve_parameter_values": True})]
 
 
 def eval_attr(model, attr, pvals):
@@ -145,8 +155,10 @@ def main():
     seed = int(payload.get("seed", 0) or 0)
     from pymoca.backends.casadi.api import transfer_model
     failures, cases = [], 0
-    for name, text in MODELS.items():
-        for opts in (OPTION_SETS if tier != "quick" else OPTION_SETS[:2]):
+    todo = [(name, text, opts) for name, text in MODELS.items() for opts in (OPTION_SETS if tier != "quick" else OPTION_SETS[:2])]
+    todo += [(name, MODELS[name], opts) for name, opts in EXTRA_CASES]
+    for name, text, opts in todo:
+        if True:
             cases += 1
             with tempfile.TemporaryDirectory() as tmp:
                 with open(os.path.join(tmp, name + ".mo"), "w") as f:
